@@ -521,6 +521,14 @@ pub fn run(tier: Tier) -> Run {
     let mut bufs = buffers(&[0x00, 0x02, 0xFF], tier.pick(6, 8));
     // strings with complete and incomplete multi-byte sequences
     bufs.extend(buffers(&[0x00, 0xC3, 0xA9], tier.pick(5, 6)).into_iter().filter(|b| b.iter().any(|&x| x >= 0x80)));
+    // buffers that begin with the magic number or its byte-swapped form (a decoder must not care what the words mean)
+    for first in [[0x03u8, 0x02, 0x23, 0x07], [0x07, 0x23, 0x02, 0x03]] {
+        for tail in buffers(&[0x00, 0x01, 0xFF], tier.pick(4, 5)) {
+            let mut b = first.to_vec();
+            b.extend(tail);
+            bufs.push(b);
+        }
+    }
     // a UTF-8 byte order mark (EF BB BF) in front of / inside a string
     bufs.extend(buffers(&[0x00, 0xEF, 0xBB, 0xBF, 0x61], tier.pick(5, 6)).into_iter().filter(|b| b.windows(3).any(|w| w == [0xEF, 0xBB, 0xBF])));
     // bytes on which word-at-a-time zero-byte tricks misfire: 0x01 next to a NUL, 0x80 / 0x81
